@@ -157,7 +157,10 @@ Record fctx := {
   fc_paused : bool;
   fc_streams : list stream;
   fc_all_len : N;                      (* all_msgs.len() + drained_all_msgs *)
-  fc_drained : N                       (* drained_all_msgs *)
+  fc_drained : N;                      (* drained_all_msgs *)
+  fc_nfiles : N;                       (* number of files in file_streams (0 on the archive path of open until the
+                                          extraction result is taken over, and for good if nothing usable was extracted) *)
+  fc_extracting : bool                 (* pending_extract.is_some(): no parser thread yet *)
 }.
 
 Record state := {
@@ -170,10 +173,10 @@ Definition init_state (first_id : N) : state := {| st_fc := None; st_next_id := 
 Definition with_fc (st : state) (fc : fctx) : state := {| st_fc := Some fc; st_next_id := st_next_id st |}.
 Definition set_paused (fc : fctx) (p : bool) : fctx :=
   {| fc_collect := fc_collect fc; fc_sort := fc_sort fc; fc_plugins := fc_plugins fc; fc_paused := p; fc_streams := fc_streams fc;
-     fc_all_len := fc_all_len fc; fc_drained := fc_drained fc |}.
+     fc_all_len := fc_all_len fc; fc_drained := fc_drained fc; fc_nfiles := fc_nfiles fc; fc_extracting := fc_extracting fc |}.
 Definition set_streams (fc : fctx) (l : list stream) : fctx :=
   {| fc_collect := fc_collect fc; fc_sort := fc_sort fc; fc_plugins := fc_plugins fc; fc_paused := fc_paused fc; fc_streams := l;
-     fc_all_len := fc_all_len fc; fc_drained := fc_drained fc |}.
+     fc_all_len := fc_all_len fc; fc_drained := fc_drained fc; fc_nfiles := fc_nfiles fc; fc_extracting := fc_extracting fc |}.
 (* fetch_add(1, Relaxed) on an AtomicU32: returns the old value, wraps *)
 Definition bump (st : state) : state := {| st_fc := st_fc st; st_next_id := wrapping_add 32 (st_next_id st) 1 |}.
 
@@ -201,6 +204,9 @@ Inductive json_shape :=
 
 Record orc := {
   o_open : open_res;        (* FileContext::from(params) *)
+  o_archive : bool;         (* ... took the archive path (some file name is an archive / archive!/glob): Ok at once with
+                               file_streams = [] and a pending background extraction *)
+  o_nfiles : N;             (* ... otherwise: the number of files (with a DLT message) it put into file_streams *)
   o_stream : stream_res;    (* StreamContext::from(command, params) *)
   o_search_ok : bool;       (* process_stream_search_params(non-empty body) returns Ok *)
   o_nmsgs : N;              (* all_msgs holds the messages with index 0..o_nmsgs-1 *)
@@ -226,7 +232,7 @@ Inductive ok_kind :=
 | OkFs.
 
 Inductive err_kind :=
-| EOpenAlready            (* open ... failed as file(s) ... is open. close first! *)
+| EOpenAlready (nfiles : N)   (* open ... failed as file(s) '<dump of file_streams>' is open. close first! *)
 | EOpenFailed             (* open ... failed with ...! *)
 | ENoFileOpenFirst        (* <cmd> failed as no file open. open first! *)
 | EOnePassOnly            (* ... Only one_pass streams supported. *)
@@ -283,13 +289,14 @@ Definition params_of (t : string) : string :=
 Definition do_open (st : state) (o : orc) : res (state * list reply) :=
   if is_some (st_fc st) then
     (_fc <- unwrap_chk site_fc_unwrap_open (st_fc st) ;;
-     Ok (st, [RErr EOpenAlready]))%res
+     Ok (st, [RErr (EOpenAlready (fc_nfiles _fc))]))%res
   else
     match o_open o with
     | OpenOk mode sort plugins =>
         let fc := {| fc_collect := mode; fc_sort := sort; fc_plugins := plugins;
                      fc_paused := collect_eqb mode COnePass; fc_streams := [];
-                     fc_all_len := 0; fc_drained := 0 |} in
+                     fc_all_len := 0; fc_drained := 0;
+                     fc_nfiles := (if o_archive o then 0 else o_nfiles o); fc_extracting := o_archive o |} in
         Ok (with_fc st fc, [ROk (OkOpen (N.of_nat (List.length plugins)))])
     | OpenErr => Ok (st, [RErr EOpenFailed])
     end.
